@@ -17,6 +17,7 @@ type Config struct {
 	MaxTicks  int
 	MakeCut   int
 	Params    map[string]int
+	TimerPreempt bool // a pending timer may fire at any scheduling point (one delay)
 	Delays    int
 	Race      bool
 	Solver    string
@@ -102,6 +103,7 @@ type Run struct {
 	onces    map[*Value]*onceSt
 	wgroups  map[*Value]*wgSt
 	atomVC   map[*Value]*VC
+	ioSync   VC // transport causality: every transport write happens-before every later transport read
 	timerOf  map[*Value]*vtimer
 	access   map[*Value]*accessInfo
 	races    map[string]bool
